@@ -79,6 +79,7 @@ fn run_word(word: &[u8], ending: usize, with_shx: bool, sa: &Shape, sb: &Shape, 
     let mut rules: BTreeSet<&'static str> = BTreeSet::new();
     let mut written: Vec<&Shape> = vec![];
     let mut error = None;
+    let clean_at_end;
     {
         let mut w = if with_shx { ShapeWriter::with_shx(a.clone(), b.clone()) } else { ShapeWriter::new(a.clone()) };
         // `fresh`: nothing committed yet (a new writer has an empty file to commit);
@@ -111,6 +112,22 @@ fn run_word(word: &[u8], ending: usize, with_shx: bool, sa: &Shape, sb: &Shape, 
                     if with_shx && b.data() != rx {
                         rules.insert("after-F:shx-not-complete");
                     }
+                    // ... and, independently of what the library writes elsewhere: a complete
+                    // shapefile has its 100-byte header, a length field equal to its size and one
+                    // record (index entry) per shape written so far
+                    let shp_now = a.data();
+                    let complete = shp_now.len() >= 100
+                        && crate::rawshp::be32(&shp_now, 24).map(|w| w as i64 * 2 == shp_now.len() as i64).unwrap_or(false)
+                        && crate::rawshp::walk(&shp_now).len() == written.len();
+                    if !complete {
+                        rules.insert("after-F:shp-not-a-complete-shapefile");
+                    }
+                    if with_shx {
+                        let shx_now = b.data();
+                        if shx_now.len() != 100 + 8 * written.len() || crate::rawshp::be32(&shx_now, 24).map(|w| w as i64 * 2 != shx_now.len() as i64).unwrap_or(true) {
+                            rules.insert("after-F:shx-not-a-complete-index");
+                        }
+                    }
                     for (d, is_shx) in [(&a, false), (&b, true)] {
                         if is_shx && !with_shx {
                             continue;
@@ -131,6 +148,7 @@ fn run_word(word: &[u8], ending: usize, with_shx: bool, sa: &Shape, sb: &Shape, 
         }
         a.set_epoch(9999);
         b.set_epoch(9999);
+        clean_at_end = clean;
         if error.is_none() {
             match ending {
                 0 => drop(w),
@@ -160,6 +178,14 @@ fn run_word(word: &[u8], ending: usize, with_shx: bool, sa: &Shape, sb: &Shape, 
                     }
                 }
             }
+        }
+    }
+    if error.is_none() && clean_at_end && ending == 0 {
+        // dropped right after a successful finalize: the implicit finalize has nothing new to
+        // commit either and performs no I/O
+        rep.count("drops_right_after_a_finalize_observed", 1);
+        if !a.ops_in_epoch(9999).is_empty() || (with_shx && !b.ops_in_epoch(9999).is_empty()) {
+            rules.insert("noop-finalize-does-io(drop)");
         }
     }
     if error.is_none() {
@@ -275,7 +301,7 @@ pub fn run(ctx: &Ctx) -> Report {
     // header ranges then depend on WHEN the running box is reset.
     let items: Vec<(i32, bool, usize, usize)> = types
         .iter()
-        .flat_map(|&t| [true, false].into_iter().flat_map(move |x| (0..blocks).flat_map(move |b| (0..if gen::carries_m(t) && !cfg!(miri) { 3 } else { 1 }).map(move |v| (t, x, b, v)))))
+        .flat_map(|&t| [true, false].into_iter().flat_map(move |x| (0..blocks).flat_map(move |b| (0..4usize).filter(move |&v| v == 0 || (!cfg!(miri) && (v == 3 || gen::carries_m(t)))).map(move |v| (t, x, b, v)))))
         .collect();
     let mut rep = par(ctx, items.len(), |idx, rep| {
         let (t, with_shx, block, variant) = items[idx];
@@ -286,6 +312,10 @@ pub fn run(ctx: &Ctx) -> Report {
         } else if variant == 2 {
             // variant 2: every Z and M of shape a is NaN (it contributes nothing to the header ranges)
             (crate::shapes::with_uniform_z_m(&sa, f64::NAN, f64::NAN), crate::shapes::with_uniform_z_m(&sb, 2.5, 3.5))
+        } else if variant == 3 {
+            // variant 3 (every type): every X and Y of shape a is NaN, so that not even the X / Y
+            // ranges of the running box have grown when a finalize comes before shape b
+            (crate::shapes::with_nan_xy(&sa, 1, 0), sb)
         } else {
             (sa, sb)
         };
@@ -294,7 +324,7 @@ pub fn run(ctx: &Ctx) -> Report {
                 continue;
             }
             for ending in 0..4 {
-                let case = format!("c09:t{}:x{}:w{}:e{}{}", t, with_shx as u8, wi, ending, [ "", ":inf", ":nan"][variant]);
+                let case = format!("c09:t{}:x{}:w{}:e{}{}", t, with_shx as u8, wi, ending, [ "", ":inf", ":nan", ":nan-xy"][variant]);
                 if !ctx.want(&case) {
                     continue;
                 }
